@@ -17,6 +17,9 @@ pub struct Case {
     pub uniform: Option<usize>,
     pub cuts: Vec<usize>,
     pub byte_reads: bool,
+    /// the response also carries a Location field (only used with statuses that are not followed)
+    #[serde(default)]
+    pub location: bool,
 }
 
 #[derive(Clone, Debug, PartialEq, Eq)]
@@ -90,6 +93,9 @@ fn reference(c: &Case) -> Expect {
 
 fn wire(c: &Case) -> Vec<u8> {
     let mut w = format!("HTTP/1.1 {} X\r\n", c.status).into_bytes();
+    if c.location {
+        w.extend_from_slice(b"Location: http://h.test/elsewhere\r\n");
+    }
     // Content-Length fields around the Transfer-Encoding field, so that field order is exercised
     for (i, v) in c.cl.iter().enumerate() {
         if i == 1 {
@@ -224,7 +230,7 @@ fn judge(c: &Case) -> Option<(String, String)> {
 pub fn c03(ctx: &Ctx) -> Report {
     let methods = ["GET", "HEAD", "POST"];
     let statuses: Vec<u16> = match ctx.tier {
-        Tier::Quick => vec![100, 101, 199, 200, 204, 206, 304, 404, 500],
+        Tier::Quick => vec![100, 101, 199, 200, 204, 206, 300, 304, 305, 404, 500],
         Tier::Thorough => vec![100, 101, 102, 199, 200, 201, 204, 205, 206, 299, 300, 304, 305, 400, 404, 500, 599],
     };
     let cls: Vec<Vec<&str>> = vec![
@@ -271,6 +277,7 @@ pub fn c03(ctx: &Ctx) -> Report {
                         uniform: None,
                         cuts: vec![],
                         byte_reads: false,
+                        location: false,
                     };
                     for byte_reads in [false, true] {
                         for uniform in [None, Some(1usize)] {
@@ -279,6 +286,12 @@ pub fn c03(ctx: &Ctx) -> Report {
                             c.uniform = uniform;
                             cases.push(c);
                         }
+                    }
+                    // a 3xx that is not followed keeps its body framing, with or without a Location
+                    if matches!(s, 300 | 304 | 305 | 306 | 399) {
+                        let mut c = base.clone();
+                        c.location = true;
+                        cases.push(c);
                     }
                     if ctx.tier == Tier::Thorough {
                         // every 2-cut segmentation of the part from the last header line on
